@@ -115,6 +115,7 @@ struct Dest {
    std::tuple<int, int, int> tp{0, 0, 0};
    std::vector<std::string> vs; std::tuple<std::string, std::string, std::string> ts;
    std::deque<int> dq; std::list<int> li; std::forward_list<int> fl; std::stack<int> sk; std::queue<int> qu; std::priority_queue<int> pq; std::multiset<int> ms; std::unordered_set<int> us;
+   double dbl = 0.25, ratio = 0.25, quota = 0.25; float flt = 0.5f;
    int n0, m0, l0, u0, d10, d20;
    Dest() : f(false), g(false), x(false), y(false), r(false), a(false), b(false), p(false), q(false) {
       n0 = n = (int) vs_u32("init"); m0 = m = (int) vs_u32("init"); l0 = l = (int) vs_u32("init"); u0 = u = (int) vs_u32("init");
@@ -191,6 +192,10 @@ void setup(Handler& ah, Dest& d, int cfg, int part /* 0 = all, 1/2 = halves for 
       tv->addFormatPos(0, lowercase()); tv->addFormatPos(1, uppercase()); tv->addFormatPos(2, anycase("Ul"));
       if (pa_opt & 32) tv->setTakesMultiValue();
       ah.addArgument("f,flag", DEST_VAR(d.f), "flag");
+   } else if (cfg == 15) {
+      // floating point destinations
+      ah.addArgument("d,double", DEST_VAR(d.dbl), "double"); ah.addArgument("x,float", DEST_VAR(d.flt), "float"); ah.addArgument("f,flag", DEST_VAR(d.f), "flag"); ah.addArgument("n,number", DEST_VAR(d.n), "number");
+      ah.addArgument("r,ratio", DEST_VAR(d.ratio), "checked double")->addCheck(range(0.5, 2.5)); ah.addArgument("q,quota", DEST_VAR(d.quota), "checked double")->addCheck(lower(1.5))->addCheck(upper(7.5));
    } else if (cfg == 12) {
       // value constraints over three arguments
       if (in(1)) { ah.addArgument("x", DEST_VAR(d.n), "x"); ah.addArgument("y", DEST_VAR(d.m), "y"); ah.addArgument("z", DEST_VAR(d.l), "z"); ah.addConstraint(differ("x;y;z")); }
@@ -250,6 +255,25 @@ void check_vec(const Tmpl& t, const std::string& e, const std::vector<int>& got,
    if (got.size() != parts.size()) return;
    for (size_t i = 0; i < parts.size(); ++i)
       vs_assert((long) got[i] == (parts[i][0] == '#' ? slot_int(t.slots[parts[i][1] - '0']) : to_long(parts[i])), msg);
+}
+// floating point: [-]X.Y with X, Y = #<slot> or literal digits: the value is the correctly rounded quotient (X*10^|Y| + Y) / 10^|Y|,
+// i.e. exactly what a correctly rounding decimal-to-binary conversion of the text gives
+void check_fp(const Tmpl& t, std::string e, double got, double init, bool is_float, const char* msg) {
+   if (e == "_") { vs_assert(got == init, msg); return; }
+   bool neg = false; if (e[0] == '-') { neg = true; e = e.substr(1); }
+   auto parts = split(e, '.');
+   long num = 0, den = 1;
+   for (size_t i = 0; i < parts.size() && i < 2; ++i) {
+      const std::string& p = parts[i];
+      if (p.empty()) continue;
+      for (size_t q = 0; q < p.size(); ++q) {
+         if (p[q] == '#') { const Slot& s = t.slots[p[++q] - '0']; for (int k = 0; k < s.len; ++k) { num = num * 10 + (s.b[k] - '0'); if (i == 1) den *= 10; } }
+         else { num = num * 10 + (p[q] - '0'); if (i == 1) den *= 10; }
+      }
+   }
+   if (neg) num = -num;
+   if (is_float) { float want = (float) num / (float) den; vs_assert((float) got == want, msg); }
+   else { double want = (double) num / (double) den; vs_assert(got == want, msg); }
 }
 // list of strings: parts separated by ','; part = [lc|uc|Ul] followed by $<slot> or literal text
 void check_strs(const Tmpl& t, const std::string& e, const std::vector<std::string>& got, const char* msg) {
@@ -324,6 +348,10 @@ void check_dests(const Tmpl& t, const Dest& d) {
       else if (k == "ws") check_strs(t, e, d.vs, "destination ws (vector<string>, formatted)");
       else if (k == "ts") check_strs(t, e, std::vector<std::string>{std::get<0>(d.ts), std::get<1>(d.ts), std::get<2>(d.ts)}, "destination ts (tuple of strings, formatted per position)");
       else if (k == "ls") check_strs(t, e, std::vector<std::string>{d.s}, "destination s (string, formatted)");
+      else if (k == "dbl") check_fp(t, e, d.dbl, 0.25, false, "destination dbl (double)");
+      else if (k == "ratio") check_fp(t, e, d.ratio, 0.25, false, "destination ratio (double, range-checked)");
+      else if (k == "quota") check_fp(t, e, d.quota, 0.25, false, "destination quota (double, lower/upper-checked)");
+      else if (k == "flt") check_fp(t, e, (double) d.flt, 0.5, true, "destination flt (float)");
       else if (k == "bs") check_int(t, e, (int) d.bs.to_ulong(), 0, "destination bs (bitset)");
    }
 }
